@@ -87,7 +87,7 @@ def check(run):
         run.check(q.render(rf, c['args'][0]) == 'm_incoming_queue.begin()' and not (rf.cfg.node_block(c) in rf.cfg.reach_from(rf.cfg.node_block(c))), 'R4', 'one-datagram-per-receive',
                   U + '::receive_from_impl', rf.loc(c), 'the receive does not remove exactly the front datagram once', 'erases begin() once, outside any loop')
     # the packet read is the front one and the sender comes from it
-    fr = [n for n in rf.all_nodes() if n['k'] == 'decl' and any(v.get('name') == 'p' and 'm_incoming_queue.front()' in q.render(rf, v.get('init')) for v in n['vars'])]
+    fr = [n for n in rf.all_nodes() if n['k'] == 'decl' and any('m_incoming_queue.front()' in q.render(rf, v.get('init')) for v in n['vars'])]
     snd = [(n, r) for n, t, r in assigns(rf) if q.render(rf, t) == '*sender']
     run.check(bool(fr) and bool(snd) and all(q.render(rf, r) == 'p.from' for n, r in snd), 'R4', 'sender-from-packet', U + '::receive_from_impl', rf.loc(),
               'the reported sender is not taken from the front packet\'s `from`', '*sender = p.from of the front packet')
